@@ -16,7 +16,7 @@ import (
 )
 
 var (
-	branchRegexp = regexp.MustCompile("refs/heads/.+")
+	branchRegexp = regexp.MustCompile("(?s)refs/heads/.+") // (?s): a branch name may contain line breaks
 )
 
 // updateRefCmd represents the updateRef command
